@@ -547,14 +547,24 @@ def rule_refuse(ctx):
                 continue
             n += 1
             first_reply = pf.replies[0][1]
+            consts = {}    # locals holding a constant on this path
             for node in evaluated(ev):
                 if isinstance(node, FuncT):
                     continue
+                if isinstance(node, ast.Assign) and len(node.targets) == 1 and isinstance(node.targets[0], ast.Name):
+                    if isinstance(node.value, ast.Constant):
+                        consts[node.targets[0].id] = node.value.value
+                    else:
+                        consts.pop(node.targets[0].id, None)
                 if any(x is first_reply for x in walk_self(node)):
                     break
                 for t in (assign_targets(node) if isinstance(node, (ast.Assign, ast.AugAssign, ast.Delete)) else []):
                     if isinstance(t, ast.Attribute) and isinstance(t.value, ast.Name) and t.value.id == conn and t.attr not in REFUSE_FIELD_EXEMPT:
                         bad = (node, t.attr, codes)
+                    elif isinstance(t, ast.Attribute) and isinstance(t.value, ast.Name) and t.value.id == conn and t.attr == "restart_offset" \
+                            and not (isinstance(node, ast.Assign) and ((isinstance(node.value, ast.Constant) and node.value.value == 0)
+                                                                        or (isinstance(node.value, ast.Name) and consts.get(node.value.id, 1) == 0))):
+                        bad = (node, t.attr + " (to something else than 0)", codes)
         ctx.ob("C05.REFUSE", bad[0] if bad else fn, f"{name}: no session field is changed before a refusal", bad is None,
                (f"{name}: session.{bad[1]} is changed and then the command is refused with {bad[2]}: the refusal is not side-effect free "
                 "(the next command sees a state the sequential model does not have after a refused command)") if bad else "", construct=f"{name}:refusal after {bad[1] if bad else ''}")
@@ -653,4 +663,82 @@ def rule_borrowed_r4(ctx):
     ctx.borrow(rule_mode, {"C18.MODE": "C05.BACKEND"})
 
 
-RULES = [rule_one_end, rule_wrappers, rule_seq, rule_arg, rule_rest, rule_codes, rule_cwd, rule_rename, rule_refuse, rule_guard_seq, rule_line, rule_borrowed_r4]
+# the sequential reference model's refusal table: which session facts a verb needs (else 503) and what must hold for its path argument (else 550).
+# Confirmed by reading every handler of the reference tree; a verb that delegates (APPE -> STOR, CDUP -> CWD) inherits the callee's row.
+MODEL_PRECONDITIONS = {
+    "abor": (("logged",), ()), "appe": ((), ()), "cdup": (("logged",), ()),
+    "cwd": (("logged",), ("path_must_exists", "path_must_be_dir")), "dele": (("logged",), ("path_must_exists", "path_must_be_file")),
+    "epsv": (("logged",), ()), "list": (("logged", "passive_server"), ("path_must_exists",)), "mkd": (("logged",), ("path_must_not_exists",)),
+    "mlsd": (("logged", "passive_server"), ("path_must_exists",)), "mlst": (("logged",), ("path_must_exists",)), "pass": (("user",), ()),
+    "pasv": (("logged",), ()), "pbsz": (("logged",), ()), "prot": (("logged",), ()), "pwd": (("logged",), ()), "quit": ((), ()), "rest": ((), ()),
+    "retr": (("logged", "passive_server"), ("path_must_exists", "path_must_be_file")), "rmd": (("logged",), ("path_must_exists", "path_must_be_dir")),
+    "rnfr": (("logged",), ("path_must_exists",)), "rnto": (("logged", "rename_from"), ("path_must_not_exists",)),
+    "stor": (("logged", "passive_server"), ()), "syst": ((), ()), "type": (("logged",), ()), "user": ((), ()),
+}
+
+
+def rule_preconditions(ctx):
+    p = ctx.p
+    ctx.rule("C05.COND", "each verb is refused exactly when the sequential model refuses it: the session facts it requires (503 otherwise) and the state of its path argument "
+                         "(550 otherwise) are those of the model's table - a missing guard turns a 503/550 into a success or into a backend error (451)")
+    n = 0
+    for verb, name, fn in p.handlers():
+        if verb not in MODEL_PRECONDITIONS:
+            continue    # a verb the model does not know: C05.CODES / the 502 rule speak about it
+        n += 1
+        want_cc, want_pc = MODEL_PRECONDITIONS[verb]
+        ds = p.decorators(fn)
+        have_cc = sorted({f for d in ds if d.name == "ConnectionConditions" and not d.kwargs.get("wait") for f in deco_fields(d)})
+        have_pc = sorted({getattr(a, "attr", src(a)) for d in ds if d.name == "PathConditions" for a in d.arg_nodes})
+        miss_cc = sorted(set(want_cc) - set(have_cc))
+        miss_pc = sorted(set(want_pc) - set(have_pc))
+        ctx.ob("C05.COND", fn, f"{verb.upper()}: requires session facts {list(want_cc)} (has {have_cc})", not miss_cc,
+               f"{verb.upper()} no longer requires {miss_cc}: sent out of sequence it is not answered 503 (the model refuses it until {miss_cc} holds)", construct=f"cond:{verb}:session {miss_cc}")
+        ctx.ob("C05.COND", fn, f"{verb.upper()}: path argument must satisfy {list(want_pc)} (has {have_pc})", not miss_pc,
+               f"{verb.upper()} no longer checks {miss_pc} on its path: where the model answers 550 the command now reaches the backend (451, or a success the model does not have)",
+               construct=f"cond:{verb}:path {miss_pc}")
+    if n < 24:
+        ctx.floor_errors.append(f"rule=C05.COND: {n} verbs of the model found in the command table (floor 24)")
+
+
+def rule_defined(ctx):
+    from ..defined import undefined_uses
+    p = ctx.p
+    ctx.rule("C05.DEFINED", "no server-side function can read a local name that the path taken has not bound: an UnboundLocalError in a handler, guard or the dispatcher "
+                            "ends the session through the catch-all without the reply the command was owed")
+    n = 0
+    for q, fn in p.functions.items():
+        if p.module_of.get(fn) != "server.py":
+            continue
+        n += 1
+        bad = undefined_uses(p, fn)
+        ctx.ob("C05.DEFINED", bad[0][0] if bad else fn, f"{q}: every local is bound before it is read on every normal path", not bad,
+               f"{q}: `{bad[0][0].id if bad else ''}` can be read before it is bound (`{bad[0][1] if bad else ''}`): the command dies with UnboundLocalError instead of being answered",
+               construct=f"defined:{q}:{bad[0][0].id if bad else ''}", function=q)
+    if n < 80:
+        ctx.floor_errors.append(f"rule=C05.DEFINED: {n} functions of server.py analysed (floor 80)")
+
+
+def rule_flush(ctx):
+    p = ctx.p
+    ctx.rule("C05.FLUSH", "the reply that announces the end of a session is sent: when a handler asks for the session to end, the dispatcher waits for the reply queue to drain "
+                          "(`await <queue>.join()`) before it returns into the clean-up that closes the control stream")
+    d = p.dispatcher()
+    rq = [n.targets[0].id for n in walk_no_nested(d) if isinstance(n, ast.Assign) and isinstance(n.value, ast.Call) and (dotted(n.value.func) or "").endswith("Queue") and isinstance(n.targets[0], ast.Name)]
+    if not rq:
+        raise AnalysisError("anchor=reply queue of the dispatcher not found")
+    _, tr = p.dispatcher_try()
+    rets = [r for s_ in tr.body for r in walk_self(s_) if isinstance(r, ast.Return)]
+    if not rets:
+        raise AnalysisError("anchor=`return` of the session loop (handler asked to end the session) not found")
+    for r in rets:
+        blk = p.parent.get(r)
+        body = getattr(blk, "body", []) if r in getattr(blk, "body", []) else getattr(blk, "orelse", [])
+        before = body[:body.index(r)] if r in body else []
+        ok = any(isinstance(x, ast.Await) and isinstance(x.value, ast.Call) and is_method_call(x.value, "join") and src(x.value.func.value) == rq[0] for s_ in before for x in walk_self(s_))
+        ctx.ob("C05.FLUSH", r, "the session loop drains the reply queue before it returns", ok,
+               "the dispatcher returns (and closes the control connection) without waiting for the reply queue: the 221 of QUIT / the 421 of a refusal may never reach the peer",
+               construct="flush:return without join")
+
+
+RULES = [rule_one_end, rule_wrappers, rule_seq, rule_arg, rule_rest, rule_codes, rule_cwd, rule_rename, rule_refuse, rule_guard_seq, rule_line, rule_borrowed_r4, rule_preconditions, rule_defined, rule_flush]
